@@ -1329,9 +1329,11 @@ class Irc(IrcCommandDispatcher, log.Firewalled):
                     self.state.addMsg(self, msg)
             log.debug('Outgoing message (%s): %s', self.network, str(msg).rstrip('\r\n'))
             return msg
-        elif self.zombie:
+        elif self.zombie and not self.fastqueue and not self.queue:
             # We kill the driver here so it doesn't continue to try to
-            # take messages from us.
+            # take messages from us.  Not before the queues are clear,
+            # though: this call may have returned nothing only because of
+            # the throttle or of the JOIN rate limit.
             self.driver.die()
             self._reallyDie()
         else:
